@@ -177,6 +177,7 @@ structure Core where
   accesses : List (String × Bytes) := []               -- observed os.Stat / os.ReadFile calls, newest first
   resumed : Bool := false                               -- resumedAfterInclude
   nextId : Nat := 1
+  banned : List Kind := []                              -- bannedDirectives
 
 /-- the live include trace: innermost first -/
 def Core.liveTrace (c : Core) : List (Bytes × Int) := c.suspended.map (fun p => (p.1.name, p.2))
@@ -245,6 +246,9 @@ def Core.onLexeme (c : Core) (l : Lexeme) : Except PFault Core :=
           match Spec.newDirectiveType kw with
           | none => .error (.err (c.japiError "unknown directive \"_\"" l.b))
           | some k =>
+            if c.banned.contains k then
+              .error (.err (c.japiError ("the directive is not allowed (" ++ k.keyword ++ ")") l.b))
+            else
             let (tr, c) := c.tracerFor
             .ok { c with cur := some { kind := k, keyword := kw, named := [], unnamed := [], ann := [], body := none,
                                         explicit := false, file := c.current.name, fid := c.current.id, kwBegin := l.b, kwEnd := l.e, trace := tr } }
@@ -288,7 +292,7 @@ def Core.onEOF (c : Core) : Except PFault Core :=
   match c.processCurrent with
   | .error f => .error f
   | .ok c =>
-    if hasUnclosedExplicit c.ctx then .error (.err (c.japiError (ctxErrMsg .notClosed) (c.current.sc.cur - 1)))
+    if c.suspended.isEmpty && hasUnclosedExplicit c.ctx then .error (.err (c.japiError (ctxErrMsg .notClosed) (c.current.sc.cur - 1)))
     else .ok c
 
 /-! ### INCLUDE -/
@@ -359,6 +363,9 @@ def scanFault (c : Core) (f : Fault) : PFault :=
 /-- processInclude -/
 def Core.processInclude (c : Core) (fsys : FileSys) (kw : Lexeme) : Except PFault Core :=
   let fs := c.current
+  if c.banned.contains .Include then
+    .error (lexErr fs kw ("the directive is not allowed (" ++ Kind.Include.keyword ++ ")") c)
+  else
   match next fs.env Gen.prog (scanFuel fs.env) fs.sc with
   | .error f => .error (scanFault c f)
   | .ok (param, sc') =>
